@@ -85,7 +85,7 @@ def execute(plan: dict) -> dict:
         if plan["liesel"]:
             return sdict["beta_value"].value
         if plan["split"] is None:
-            return sdict["beta"]
+            return jnp.atleast_1d(sdict["beta"])
         return jnp.concatenate([jnp.atleast_1d(sdict["b0"]), jnp.atleast_1d(sdict["b1"])])
 
     if kind == "rw":
@@ -93,8 +93,15 @@ def execute(plan: dict) -> dict:
     elif kind == "iwls":
         ker = gs.IWLSKernel(keys, initial_step_size=s)
     elif kind == "iwls_user_info":
-        cholA = jnp.asarray(np.linalg.cholesky(A), jnp.float32)
-        ker = gs.IWLSKernel(keys, chol_info_fn=lambda ms: cholA, initial_step_size=s)
+        # a user-supplied information that depends on the kernel's own position:
+        # F(x) = A * (1 + 0.5 tanh(x_0)^2)
+        A32 = jnp.asarray(A, jnp.float32)
+
+        def chol_info_fn(ms):
+            x = flat(ms)
+            return jnp.linalg.cholesky(A32 * (1.0 + 0.5 * jnp.tanh(x[0]) ** 2))
+
+        ker = gs.IWLSKernel(keys, chol_info_fn=chol_info_fn, initial_step_size=s)
     elif kind == "mh_sym":
         def prop(key, ms, step):
             pos = {}
@@ -142,7 +149,7 @@ def execute(plan: dict) -> dict:
         if kind in ("rw", "mh_sym"):
             return np.zeros(to.shape[:-1])
         if kind in ("iwls", "iwls_user_info"):
-            F = M.info(frm, y) if kind == "iwls" else np.broadcast_to(A, frm.shape[:-1] + (p, p))
+            F = M.info(frm, y) if kind == "iwls" else A * (1.0 + 0.5 * np.tanh(frm[..., 0]) ** 2)[..., None, None]
             mu = frm + (s**2 / 2) * np.linalg.solve(F, M.score(frm, y)[..., None])[..., 0]
             P = F / s**2
             d = to - mu
